@@ -8,10 +8,10 @@ Inductive case :=
 | NewF (hs : list N) (bits : Z) (r : option bytes)            (* None: the Go call panicked *)
 | May (f : bytes) (qs : list (N * option bool))       (* (hash, MayContain result) *)
 | MayKey (f key : bytes) (r : option bool)
-(* table built from internal keys ikeys with BloomFalsePositive>0 = fp_pos and
-   bits = BloomBitsPerKey(len, fp); bf = filter bytes read back from the opened table;
-   probes = (internal key, DoesNotHave(Hash(ParseKey key))) *)
-| Tbl (ikeys : list bytes) (fp_pos : bool) (bits : Z) (bf : bytes) (probes : list (bytes * bool))
+(* table built from internal keys, each added with Builder.Add (false) or Builder.AddStaleKey
+   (true), with BloomFalsePositive>0 = fp_pos and bits = BloomBitsPerKey(len, fp); bf = filter
+   bytes read back from the opened table; probes = (internal key, DoesNotHave(Hash(ParseKey key))) *)
+| Tbl (adds : list (bool * bytes)) (fp_pos : bool) (bits : Z) (bf : bytes) (probes : list (bytes * bool))
 (* pickTable-style probe with a user key (prefixIsKey): DoesNotHave(Hash(prefix)) *)
 | Pick (bf prefix : bytes) (r : bool).
 
@@ -37,12 +37,13 @@ Definition run_case (c : case) : bool * list N :=
   | MayKey f key r =>
       let m := may_contain_key f key in
       (ob_eqb m r, [match m with Some true => 35 | Some false => 36 | None => 37 end])
-  | Tbl ikeys fp_pos bits bf probes =>
-      let m := build_bloom ikeys fp_pos bits in
+  | Tbl adds fp_pos bits bf probes =>
+      let m := build_bloom_adds adds fp_pos bits in
       (opt_eqb bytes_eqb m (Some bf)
        && forallb (fun p => ob_eqb (get_skips_table bf (fst p)) (Some (snd p))) probes,
        [if fp_pos then 41 else 40;
-        if existsb (fun p => snd p) probes then 42 else 43])
+        if existsb (fun p => snd p) probes then 42 else 43;
+        if existsb fst adds then (if forallb fst adds then 48 else 47) else 0])
   | Pick bf prefix r =>
       let m := pick_skips_table bf prefix in
       (ob_eqb m (Some r), [match m with Some true => 45 | _ => 46 end])
